@@ -13,7 +13,7 @@ git -C /repo worktree add -f "$WT" HEAD >/dev/null 2>&1 || exit 2
 # the check regenerates lean/PyaModel/Generated/*.lean from the tree it is pointed at: keep the clean tree's files
 GENBAK="$WT.generated"; rm -rf "$GENBAK"; cp -a "$HERE/lean/PyaModel/Generated" "$GENBAK"
 for id in "$@"; do
-  d="$HERE/seeded/$id"; prop=${id%%-*}
+  d="$HERE/seeded/$id"; prop=${SEED_PROP:-${id%%-*}}
   git -C "$WT" checkout -q -- . ; git -C "$WT" clean -fdq
   (cd "$WT" && /venv/bin/python "$d/demo.py" >"$WT/.demo-clean.log" 2>&1); c1=$?
   if ! git -C "$WT" apply "$d/patch.diff"; then echo "== $id: PATCH DOES NOT APPLY to HEAD"; continue; fi
